@@ -138,4 +138,13 @@ def NoTrip (M : Machine σ ε) (limit : Nat) : σ → List UInt8 → List (List 
     | ⟨acc', .inl (st', cache')⟩ => NoTrip M limit st' cache' segs acc'
     | _ => True
 
+/-- the offsets at which the model parser, fed one byte per `Parse` call, emits its `done` events (message
+    boundaries as the model itself places them) -/
+def boundaries (M : Machine σ ε) (isDone : ε → Bool) : σ → List UInt8 → List UInt8 → Nat → List Nat
+  | _, _, [], _ => []
+  | st, cache, b :: bs, off =>
+    match parseLC M 0 st cache [b] [] with
+    | ⟨evs, .inl (st', cache')⟩ => List.replicate (evs.countP isDone) (off + 1) ++ boundaries M isDone st' cache' bs (off + 1)
+    | ⟨evs, .inr _⟩ => List.replicate (evs.countP isDone) (off + 1)
+
 end Scan
